@@ -1054,6 +1054,10 @@ class UserActions(object):
     Returns all summary columns based on the given source_table, with colId matching that of col,
     and excluding col from the returned list.
     """
+    # The special 'group' column of a summary table is never a sister of a source column that happens
+    # to be called 'group': it must stay what it is when that column is renamed or changed.
+    if col.colId == 'group':
+      return []
     # The filter removes falsy columns, i.e. results from tables that don't have a match.
     col_recs = [self._docmodel.columns.lookupOne(parentId=t, colId=col.colId, isFormula=True)
                 for t in source_table.summaryTables]
